@@ -81,11 +81,26 @@ def keyJson (kv : Key × Res) : Json :=
     ("nodeRef", Json.str kv.2.refName),
     ("leaves", leavesJson kv.2.leaves)]
 
+def jDef (j : Json) : Except String SrcDef := do
+  let name ← (← j.getObjVal? "name").getStr?
+  let scopes ← (← (← j.getObjVal? "scopes").getArr?).toList.mapM jScope
+  pure ⟨name, scopes⟩
+
 def handle (line : String) : Except String String := do
   let j ← Json.parse line
-  let scopes ← (← (← j.getObjVal? "scopes").getArr?).toList.mapM jScope
-  let root ← (← j.getObjVal? "root").getNat?
+  let scopes0 ← (← (← j.getObjVal? "scopes").getArr?).toList.mapM jScope
   let cols ← jStrs (← j.getObjVal? "cols")
+  -- with "defs": the request is the UN-expanded query plus the `sources=` definitions; the model expands
+  let (scopes, root, inl) ← match j.getObjVal? "defs" with
+    | .ok dj => do
+      let defs ← (← dj.getArr?).toList.mapM jDef
+      let ex := expandQ some defs (defs.length + 1) scopes0
+      let il := expandQ (fun _ => none) defs (defs.length + 1) scopes0
+      let cfgI : Cfg := ⟨SqlglotModel.Generated.C17.keyComps, true⟩
+      pure (ex.1, ex.2, cols.map fun c => leavesJson (lineageOne cfgI il.1 il.2 c).1.leaves)
+    | .error _ => do
+      let root ← (← j.getObjVal? "root").getNat?
+      pure (scopes0, root, [])
   let cfgC : Cfg := ⟨SqlglotModel.Generated.C17.keyComps, true⟩
   let cfgU : Cfg := ⟨SqlglotModel.Generated.C17.keyComps, false⟩
   let one := cols.map fun c => leavesJson (lineageOne cfgC scopes root c).1.leaves
@@ -94,7 +109,8 @@ def handle (line : String) : Except String String := do
   let all := (lineageAll cfgC scopes root cols []).map leavesJson
   let cache := (lineageAllCache cfgC scopes root cols []).map keyJson
   pure (Json.mkObj [("one", Json.arr one.toArray), ("unc", Json.arr unc.toArray), ("flow", Json.arr flw.toArray),
-    ("all", Json.arr all.toArray), ("cache", Json.arr cache.toArray)]).compress
+    ("all", Json.arr all.toArray), ("cache", Json.arr cache.toArray), ("inl", Json.arr inl.toArray),
+    ("root", Json.num root), ("nscopes", Json.num scopes.length)]).compress
 
 partial def loop (h : IO.FS.Stream) : IO Unit := do
   let line ← h.getLine
